@@ -166,6 +166,28 @@ def _contains_quant(e):
     return False
 
 
+def is_nonlinear(e):
+    """contains a product / quotient of two non-constant terms"""
+    seen = set()
+    stack = [e]
+    while stack:
+        x = stack.pop()
+        if x.get_id() in seen:
+            continue
+        seen.add(x.get_id())
+        if z3.is_quantifier(x):
+            stack.append(x.body())
+            continue
+        if z3.is_app(x):
+            k = x.decl().kind()
+            if k in (z3.Z3_OP_MUL, z3.Z3_OP_DIV, z3.Z3_OP_IDIV, z3.Z3_OP_MOD):
+                nonconst = [c for c in x.children() if not (z3.is_rational_value(c) or z3.is_int_value(c))]
+                if len(nonconst) >= 2 or (k != z3.Z3_OP_MUL and not (z3.is_rational_value(x.arg(1)) or z3.is_int_value(x.arg(1)))):
+                    return True
+            stack.extend(x.children())
+    return False
+
+
 def to_smt2(assertions):
     s = z3.Solver()
     s.add(assertions)
